@@ -1,4 +1,5 @@
 import ButlerModel.Model.Parser
+import ButlerModel.Lemmas.LR
 /-! # C14 — the parser follows the documented grammar and rejects everything else cleanly
 
 What is proved here:
@@ -9,9 +10,18 @@ What is proved here:
 * lexer facts: leading blanks/tabs are insignificant; every case variant of every reserved word
   (all 280 of them) lexes to the keyword token; a reserved word glued to more identifier characters
   is an identifier.
-The parser model itself (LR driver over the extracted tables) is tied by correspondence; the
-print/parse round trip and the documented precedence are decided by the model-free oracles of the
-check (not proved: see `not_proved` in the evidence). -/
+* **the parser never gets stuck** (`parse_outcomes`): the LALR tables extracted from the live PLY
+  parser are a well-formed LR automaton (`lr_tables_wellformed`, decided by the kernel over the
+  whole table on every run: one accessing symbol per state, every reduce entry is preceded — along
+  *every* backward path — by the right-hand side it pops and lands on a goto entry, accept only after
+  `input`, `$end` never shifted), every semantic action accepts children of those shapes
+  (`LR.act_ok`, all 52 productions), and therefore for **every** input string the driver yields a
+  tree, the empty expression, or one of the four user-facing errors — never an empty stack, a
+  missing goto entry, or an action applied to the wrong children.  Fuel exhaustion is the one
+  outcome left to the correspondence (`parse_outcomes` keeps it as an explicit disjunct).
+The parser model is additionally tied by correspondence; the print/parse round trip and the
+documented precedence are decided by the model-free oracles of the check (not proved: see
+`not_proved` in the evidence). -/
 namespace C14
 open Lexer
 
@@ -66,5 +76,54 @@ theorem range_literal_values :
     step "1..5".toList = .tok ⟨"RANGE_LITERAL", "1,5,None"⟩ [] ∧
     step "-3 .. -1 : 2".toList = .tok ⟨"RANGE_LITERAL", "-3,-1,2"⟩ [] ∧
     step "1..5:0".toList = .tok ⟨"RANGE_LITERAL", "1,5,None"⟩ ":0".toList := by decide +kernel
+
+/-! ### The extracted LALR automaton is well formed, and the driver never gets stuck -/
+
+/-- **F obligation**: the table checks of `Model/LR.lean`, on the tables extracted from the code that
+is there now. -/
+theorem lr_tables_wellformed : LR.TablesOK :=
+  ⟨by decide +kernel, by decide +kernel, by decide +kernel, by decide +kernel⟩
+
+/-- the right-hand sides used by those checks are the ones spelled in the production texts that
+`productions_expected` pins -/
+theorem lr_productions_coherent : LR.prodsCoherent = true := by decide +kernel
+
+/-- From a stack that is a path of the automaton, whatever the remaining input and however long the
+driver runs, the outcome is a value of the shape of `input` or a user-facing error. -/
+theorem run_outcomes (fuel : Nat) (ps : Parser.PState) (h : LR.Good ps.states ps.vals) :
+    LR.Documented (Parser.run fuel ps) :=
+  LR.run_documented lr_tables_wellformed fuel ps h
+
+/-- **Rejection is clean, for every string**: parsing yields a tree, the empty expression, a lexer
+error, a syntax error (in the middle or at the end of the input), the `ValueError` of a malformed
+`POINT`, or (model only) exhausted fuel — never an internal error of the LR machinery. -/
+theorem parse_outcomes (s : String) :
+    (∃ n, Parser.parse s = .ok (some n)) ∨ Parser.parse s = .ok none ∨
+    Parser.parse s = .error .lex ∨ Parser.parse s = .error .parse ∨ Parser.parse s = .error .eof ∨
+    Parser.parse s = .error .value ∨ Parser.parse s = .error (.internal "parser fuel") := by
+  have h := run_outcomes (20 * s.length + 100)
+    { states := [0], vals := [], la := none, input := s.toList } LR.Good.base
+  unfold Parser.parse
+  generalize Parser.run (20 * s.length + 100) { states := [0], vals := [], la := none, input := s.toList } = r at h
+  match r, h with
+  | .ok (.node n), _ => exact Or.inl ⟨n, rfl⟩
+  | .ok .none, _ => exact Or.inr (Or.inl rfl)
+  | .ok (.tok _), h => simp [LR.Documented, LR.kindOK, LR.kindOf] at h
+  | .ok (.list _), h => simp [LR.Documented, LR.kindOK, LR.kindOf] at h
+  | .error .lex, _ => simp
+  | .error .parse, _ => simp
+  | .error .eof, _ => simp
+  | .error .value, _ => simp
+  | .error (.internal m), h =>
+    simp only [LR.Documented] at h
+    subst h; simp
+
+/-- non-vacuity: the outcomes other than fuel exhaustion all occur -/
+example : (match Parser.parse "a = 1 AND b IN (1, 2)" with | .ok (some _) => true | _ => false) = true := by decide +kernel
+example : (match Parser.parse "" with | .ok none => true | _ => false) = true := by decide +kernel
+example : (match Parser.parse "a ? 1" with | .error .lex => true | _ => false) = true := by decide +kernel
+example : (match Parser.parse "a = = 1" with | .error .parse => true | _ => false) = true := by decide +kernel
+example : (match Parser.parse "a =" with | .error .eof => true | _ => false) = true := by decide +kernel
+example : (match Parser.parse "POINT(1)" with | .error .value => true | _ => false) = true := by decide +kernel
 
 end C14
